@@ -579,6 +579,14 @@ pub fn family(name: &str, tier: Tier) -> Vec<Scenario> {
                         v.push(one("F1", vec![FileSpec::new(&w, 0, Feed::Whole)]));
                     }
                 }
+            } else {
+                // quick: the six-atom words that start with three different atoms (the shortest files in which a run
+                // against the file's own pending data can skip a position: abc + a?c)
+                for w in words(3, 6) {
+                    if w.len() == 6 && w[0] != w[1] && w[1] != w[2] && w[0] != w[2] {
+                        v.push(one("F1", vec![FileSpec::new(&w, 0, Feed::Whole)]));
+                    }
+                }
             }
         },
         // two files in one session, every interleaving of their op lists (per-atom feed)
